@@ -697,3 +697,99 @@ def every_operation_awaited(ctx: Ctx, rule: str, files: tuple[str, ...] | None =
                       f"{fn.short()} calls `{unparse(call)[:70]}` as a bare statement: {why}, so this only creates a coroutine object - the operation never runs", node=st,
                       instance=f"{fn.short()}: {form} awaited")
     ctx.check(True, rule, next(iter(ctx.prog.iter_functions())), f"bare call statements in {len(files)} anchored file(s): none drops a coroutine", f"{n} bare call statements inspected", "", instance="operations awaited")
+
+
+def _presence_choice(f, e):
+    """(subject, value_when_missing, value_when_present) of `D if x is None else x` / `x if isinstance(x, T) else D` in any polarity, through one level of if/else lowering."""
+    if isinstance(e, ast.Name) and C.stored_value(f, e.id) is not None:
+        e = C.stored_value(f, e.id)  # one assignment, or the two arms of an if/else read as a conditional expression
+    e = C.inline_locals(f, e, calls="all") or e
+    t = C.negate_aware_ifexp(e)
+    if t is None:
+        return None
+    test, a, b = t
+    if isinstance(test, ast.Compare) and len(test.ops) == 1 and isinstance(test.ops[0], ast.Is) and C.is_const(test.comparators[0], None):
+        return unparse(test.left), unparse(a), unparse(b)
+    if isinstance(test, ast.Call) and dotted(test.func) == "isinstance" and test.args:
+        return unparse(test.args[0]), unparse(b), unparse(a)
+    return None
+
+
+def retry_delay_defaults(ctx: Ctx, rule: str) -> None:
+    """An explicit `next_retry` is the delay of the retry; only a missing one is replaced (by zero in Message, by the actor's retry policy for attempt k+1 in MessageDependency)."""
+    for q, default_has in ((f"{C.MESSAGE}.retry", "timedelta"), (f"{C.MESSAGE}.force_retry", "timedelta"), (f"{C.MSGDEP}.retry", "retry_policy"), (f"{C.MSGDEP}.force_retry", "retry_policy")):
+        f = ctx.func(q)
+        vals = []
+        for c in C.own_nodes(f):
+            if isinstance(c, ast.Call):
+                v = C.kw(c, "next_retry")
+                if v is not None and not (isinstance(v, ast.Name) and v.id == "next_retry" and not C.local_defs(f, "next_retry")):
+                    vals.append(v)
+                elif v is None and isinstance(c.func, ast.Attribute) and c.func.attr == "_prepare_retry" and c.args:
+                    vals.append(c.args[0])
+        ok = False
+        got = None
+        for v in vals:
+            got = _presence_choice(f, v)
+            if got is not None:
+                # the default itself may be a named constant / a local: what matters is that it is a delay (not None, not the parameter) and that the explicit value is passed through
+                ok = got[0] == "next_retry" and got[1] not in ("None", "next_retry") and got[2] == "next_retry"
+                if q.startswith(C.MSGDEP) and ok and "retry_policy" in got[1]:
+                    ok = "already_tried + 1" in got[1]
+        if got is None:
+            ctx.note(f"{rule}: {f.short()}: the choice of the retry delay is not a recognised conditional - not decided here")
+            continue
+        ctx.check(ok, rule, f, f"{f.short()}: an explicit next_retry is used, a missing one defaults", f"{default_has}(...) if next_retry is None else next_retry",
+                  f"{f.short()} chooses the retry delay as {got}: an explicit delay is ignored (the retry comes back at once, or with the policy's delay although the caller asked for another) or None is passed on as a delay",
+                  instance=f"{f.short()}: retry delay")
+
+
+def eager_outcome_defaults(ctx: Ctx, rule: str) -> None:
+    """The outcome an eager response reports: what set_result / set_exception recorded when something was recorded, else the action's own default (ack / reschedule: success;
+    nack / reject / retry / force_retry: failure)."""
+    want = {"ack": True, "reschedule": True, "nack": False, "reject": False, "retry": False, "force_retry": False}
+    for action, dflt in want.items():
+        f = ctx.func(f"{C.MSGDEP}.{action}")
+        cons = [c for c in C.own_nodes(f) if isinstance(c, ast.Call) and (dotted(c.func) or "").split(".")[-1] == "_NoAction"]
+        if len(cons) != 1:
+            cons = [c for c in ast.walk(ctx.prog.cls(C.MSGDEP).node) if isinstance(c, ast.Call) and (dotted(c.func) or "").split(".")[-1] == "_NoAction"][:1] if not cons else cons[:1]
+        v = C.kw(cons[0], "success") if cons else None
+        got = _presence_choice(f, v) if v is not None else None
+        if got is None:  # built by a shared helper taking the default as a parameter, or another shape: not decided here
+            ctx.note(f"{rule}: MessageDependency.{action}: the reported outcome is not a recognised conditional - not decided here")
+            continue
+        ok = got is not None and got[0].endswith("result_success") and got[1] == repr(dflt) and got[2] == got[0]
+        ctx.check(ok, rule, f, f"MessageDependency.{action}: recorded outcome if any, else {dflt}", f"success = recorded if recorded is not None else {dflt}",
+                  f"MessageDependency.{action} reports success={got}: the outcome recorded by set_result / set_exception is replaced by the default (or the default by None) - the stored result says failed for a "
+                  "successful execution or the reverse", instance=f"MessageDependency.{action}: outcome default")
+    for name, flag in (("set_result", True), ("set_exception", False)):
+        f = ctx.func(f"{C.MSGDEP}.{name}")
+        st = [x for x in C.own_nodes(f) if isinstance(x, ast.Assign) and any(isinstance(t, ast.Attribute) and t.attr.endswith("result_success") for t in x.targets)]
+        ctx.check(len(st) == 1 and C.is_const(st[0].value, flag), rule, f, f"{name} records success={flag}", "one store", f"MessageDependency.{name} does not record success={flag}: an eager response after it reports the "
+                  "action's default outcome instead of the one that was set last", instance=f"{name}: records outcome")
+
+
+def job_validation_boundaries(ctx: Ctx, rule: str) -> None:
+    """Valid configurations are accepted as documented: priorities from 0, durations from exactly one second; an explicit args / result id is used, a missing one is generated."""
+    rk = ctx.func("repid.data._key.RoutingKey.__post_init__")
+    cmps = [c for st in C.own_nodes(rk) if isinstance(st, ast.If) and any(isinstance(b, ast.Raise) for b in st.body) for c in ast.walk(st.test) if isinstance(c, ast.Compare) and "priority" in unparse(c.left)]
+    negated = any(isinstance(u, ast.UnaryOp) and isinstance(u.op, ast.Not) and any(x is c for c in cmps for x in ast.walk(u)) for st in C.own_nodes(rk) if isinstance(st, ast.If) for u in ast.walk(st.test))
+    ok = not negated and len(cmps) == 1 and len(cmps[0].ops) == 1 and ((isinstance(cmps[0].ops[0], ast.Lt) and C.is_const(cmps[0].comparators[0], 0)) or (isinstance(cmps[0].ops[0], ast.LtE) and unparse(cmps[0].comparators[0]) == "-1"))
+    ctx.check(ok, rule, rk, "RoutingKey: priorities from 0 are valid", "rejects priority < 0 only", f"RoutingKey rejects {unparse(cmps[0]) if cmps else '?'}: PrioritiesT.LOW (0) is a valid priority - every LOW job would fail at "
+              "key construction on both the producer's and the consumer's side", instance="RoutingKey priority boundary")
+    init = ctx.func("repid.job.Job.__init__")
+    secs = [c for c in ast.walk(init.module.tree) if isinstance(c, ast.Compare) and "total_seconds()" in unparse(c.left)]  # in __init__ or in a validation helper of the module
+    ctx.floor(rule, len(secs), 1, "duration validations of Job")
+    for c in secs:
+        ok = len(c.ops) == 1 and isinstance(c.ops[0], ast.Lt) and C.is_const(c.comparators[0], 1)
+        ctx.check(ok, rule, init, f"Job: {unparse(c.left)[:40]} of exactly one second is valid", "< 1 rejected", f"Job.__init__ rejects `{unparse(c)}`: the documented minimum (>= 1 second) itself is refused, or sub-second values the "
+                  "brokers round away are accepted", node=c, instance=f"Job duration boundary: {unparse(c.left)[:30]}")
+    for attr in ("args_id", "result_id"):
+        v = C.stored_value(init, f"self.{attr}")
+        got = _presence_choice(init, v) if v is not None else None
+        ok = got is not None and got[0] == attr and "uuid" in got[1] and got[2] == attr
+        if got is None:
+            ctx.note(f"{rule}: Job.{attr}: selection is not a recognised conditional - not decided here")
+            continue
+        ctx.check(ok, rule, init, f"Job: an explicit {attr} is kept, a missing one is generated", f"{attr} if given else uuid4().hex", f"Job.__init__ sets {attr} from {got}: the id the caller chose is replaced by a random one "
+                  "(the bucket they prepared or will read is never the one used) or None becomes the id", instance=f"Job {attr} selection")
